@@ -995,8 +995,8 @@ def run(res, tier, seed):
             rng = random.Random("%d/%d" % (seed, i))
             rt.append(("list", _random_reg(rng, 1500, 5, 8), deadline))
         groups = [("registry histories of length <= 3", reg_tasks_for(3)),
-                  ("isolation histories (length <= %d)" % idepth, iso_tasks),
                   ("random registry histories of length 5-8", rt),
+                  ("isolation histories (length <= %d)" % idepth, iso_tasks),
                   ("registry histories of length 4", reg_tasks_for(4))]
     reported = set()
     ctx = mp.get_context("fork")
